@@ -63,6 +63,10 @@ type c17In struct {
 	Build bool   `json:"build,omitempty"`
 	Typed bool   `json:"typed,omitempty"`
 	Entry string `json:"entry,omitempty"` // include tree: path of the entry file (Text unused)
+	// include tree: files whose opens/reads are observed with inotify while Merge runs, and FIFOs
+	// (all of them forbidden to the merger) that are probed for a reader while Merge runs
+	Watch []string `json:"watch,omitempty"`
+	Fifos []string `json:"fifos,omitempty"`
 }
 
 type c17Job struct {
@@ -89,8 +93,14 @@ type c17Out struct {
 	Merge   c17Stage          `json:"merge"`
 	Secs    map[string]string `json:"secs,omitempty"` // include tree: section name -> dump of merged items
 	Entries []string          `json:"entries,omitempty"`
-	Ms      int64             `json:"ms"`
-	Us      int64             `json:"us"`
+	// include tree, file-access observation (see c17FileWatch)
+	Opened      []string `json:"opened,omitempty"`       // watched files that were opened while Merge ran
+	Accessed    []string `json:"accessed,omitempty"`     // watched files (and FIFOs) bytes were read from while Merge ran
+	FifoReaders []string `json:"fifo_readers,omitempty"` // FIFOs somebody held / was opening for reading while Merge ran
+	ErrMarks    []string `json:"err_marks,omitempty"`    // decoy markers found in the FULL text of Merge's error
+	WatchErr    string   `json:"watch_err,omitempty"`    // the observation could not be set up
+	Ms          int64    `json:"ms"`
+	Us          int64    `json:"us"`
 	// set by the parent when the child died / hung on this input
 	Crash string `json:"crash,omitempty"`
 	Hang  bool   `json:"hang,omitempty"`
@@ -411,32 +421,184 @@ func c17ObserveText(in c17In, text string) (o c17Out) {
 	return
 }
 
+// c17FileWatch observes file access by this process with inotify: IN_OPEN and
+// IN_ACCESS on regular files, IN_ACCESS only on FIFOs (the monitor's own probe
+// opens their write end). The kernel queues the events synchronously with the
+// open/read, so everything Merge did is in the queue when Merge has returned.
+type c17FileWatch struct {
+	fd  int
+	wds map[int32]string
+}
+
+func c17WatchStart(files, fifos []string) (*c17FileWatch, error) {
+	fd, err := syscall.InotifyInit1(syscall.IN_NONBLOCK | syscall.IN_CLOEXEC)
+	if err != nil {
+		return nil, fmt.Errorf("inotify_init1: %w", err)
+	}
+	w := &c17FileWatch{fd: fd, wds: map[int32]string{}}
+	add := func(p string, mask uint32) error {
+		wd, err := syscall.InotifyAddWatch(fd, p, mask|syscall.IN_DONT_FOLLOW)
+		if err != nil {
+			return fmt.Errorf("inotify_add_watch %s: %w", p, err)
+		}
+		w.wds[int32(wd)] = p
+		return nil
+	}
+	for _, p := range files {
+		if err = add(p, syscall.IN_OPEN|syscall.IN_ACCESS); err != nil {
+			syscall.Close(fd)
+			return nil, err
+		}
+	}
+	for _, p := range fifos {
+		if err = add(p, syscall.IN_ACCESS); err != nil {
+			syscall.Close(fd)
+			return nil, err
+		}
+	}
+	return w, nil
+}
+
+// finish drains the queue and releases the instance.
+func (w *c17FileWatch) finish() (opened, accessed []string, err error) {
+	defer syscall.Close(w.fd)
+	op, ac := map[string]bool{}, map[string]bool{}
+	buf := make([]byte, 64<<10)
+	for {
+		n, rerr := syscall.Read(w.fd, buf)
+		if rerr == syscall.EINTR {
+			continue
+		}
+		if rerr == syscall.EAGAIN || n == 0 {
+			break
+		}
+		if rerr != nil {
+			return nil, nil, fmt.Errorf("inotify read: %w", rerr)
+		}
+		for off := 0; off+syscall.SizeofInotifyEvent <= n; {
+			wd := int32(uint32(buf[off]) | uint32(buf[off+1])<<8 | uint32(buf[off+2])<<16 | uint32(buf[off+3])<<24)
+			mask := uint32(buf[off+4]) | uint32(buf[off+5])<<8 | uint32(buf[off+6])<<16 | uint32(buf[off+7])<<24
+			nameLen := int(uint32(buf[off+12]) | uint32(buf[off+13])<<8 | uint32(buf[off+14])<<16 | uint32(buf[off+15])<<24)
+			off += syscall.SizeofInotifyEvent + nameLen
+			if mask&syscall.IN_Q_OVERFLOW != 0 {
+				return nil, nil, fmt.Errorf("inotify queue overflow")
+			}
+			p, known := w.wds[wd]
+			if !known {
+				continue
+			}
+			if mask&syscall.IN_OPEN != 0 {
+				op[p] = true
+			}
+			if mask&syscall.IN_ACCESS != 0 {
+				ac[p] = true
+			}
+		}
+	}
+	for p := range op {
+		opened = append(opened, p)
+	}
+	for p := range ac {
+		accessed = append(accessed, p)
+	}
+	sort.Strings(opened)
+	sort.Strings(accessed)
+	return opened, accessed, nil
+}
+
+var c17MarkRe = regexp.MustCompile(`DECOY-[a-z0-9]+`)
+
+// c17FifoText is what the monitor feeds a FIFO once somebody opens its read end.
+func c17FifoText(path string) string {
+	tag := strings.TrimSuffix(filepath.Base(path), filepath.Ext(path))
+	tag = regexp.MustCompile(`[^a-z0-9]+`).ReplaceAllString(strings.ToLower(tag), "")
+	return fmt.Sprintf("DECOY-fifo%s { { { 'DECOY-fifo%s\n", tag, tag)
+}
+
 func c17ObserveTree(in c17In) (o c17Out) {
 	o.ID = in.ID
-	o.Merge = c17Guard(func() error {
-		sections, entries, err := config.NewMerger(in.Entry).Merge()
-		if err != nil {
-			return err
+	var watch *c17FileWatch
+	if len(in.Watch)+len(in.Fifos) > 0 {
+		var werr error
+		if watch, werr = c17WatchStart(in.Watch, in.Fifos); werr != nil {
+			o.WatchErr = werr.Error()
 		}
-		o.Entries = entries
-		// production sequence (cmd/run.go readConfig): Merge, then config.New on the merged sections
-		o.New = c17Guard(func() error {
-			_, err := config.New(sections)
-			return err
+	}
+	fullErr := ""
+	run := func() c17Stage {
+		return c17Guard(func() error {
+			sections, entries, err := config.NewMerger(in.Entry).Merge()
+			if err != nil {
+				fullErr = err.Error()
+				return err
+			}
+			o.Entries = entries
+			// production sequence (cmd/run.go readConfig): Merge, then config.New on the merged sections
+			o.New = c17Guard(func() error {
+				_, err := config.New(sections)
+				return err
+			})
+			o.Secs = map[string]string{}
+			for _, s := range sections {
+				var sb strings.Builder
+				if _, dup := o.Secs[s.Name]; dup {
+					sb.WriteString("<duplicate section in merged result>\n")
+				}
+				for _, it := range s.Items {
+					c17DumpItem(&sb, it, 0)
+				}
+				o.Secs[s.Name] += sb.String()
+			}
+			return nil
 		})
-		o.Secs = map[string]string{}
-		for _, s := range sections {
-			var sb strings.Builder
-			if _, dup := o.Secs[s.Name]; dup {
-				sb.WriteString("<duplicate section in merged result>\n")
+	}
+	if len(in.Fifos) == 0 {
+		o.Merge = run()
+	} else {
+		// Opening a FIFO for reading blocks until a writer shows up, so Merge runs beside a prober.
+		// The probe is structural, not timed: open(O_WRONLY|O_NONBLOCK) fails with ENXIO exactly while
+		// nobody holds (or is blocked opening) the read end. A reader found is recorded, fed a marker
+		// line and an EOF, so that a merger which opened the FIFO finishes instead of hanging.
+		done := make(chan c17Stage, 1)
+		go func() { done <- run() }()
+		fed := map[string]bool{}
+	probe:
+		for {
+			select {
+			case st := <-done:
+				o.Merge = st
+				break probe
+			default:
 			}
-			for _, it := range s.Items {
-				c17DumpItem(&sb, it, 0)
+			for _, p := range in.Fifos {
+				if fed[p] {
+					continue
+				}
+				fd, err := syscall.Open(p, syscall.O_WRONLY|syscall.O_NONBLOCK|syscall.O_CLOEXEC, 0)
+				if err != nil {
+					continue
+				}
+				fed[p] = true
+				o.FifoReaders = append(o.FifoReaders, p)
+				_, _ = syscall.Write(fd, []byte(c17FifoText(p)))
+				syscall.Close(fd)
 			}
-			o.Secs[s.Name] += sb.String()
+			time.Sleep(100 * time.Microsecond)
 		}
-		return nil
-	})
+	}
+	if watch != nil {
+		var err error
+		if o.Opened, o.Accessed, err = watch.finish(); err != nil {
+			o.WatchErr = err.Error()
+		}
+	}
+	seen := map[string]bool{}
+	for _, mk := range c17MarkRe.FindAllString(fullErr, -1) {
+		if !seen[mk] {
+			seen[mk] = true
+			o.ErrMarks = append(o.ErrMarks, mk)
+		}
+	}
 	return
 }
 
@@ -1165,7 +1327,10 @@ type c17TFile struct {
 	rel      string // relative to the entry directory ("../outside/x.dae" for outsiders)
 	abs      string
 	mode     os.FileMode
-	decoy    string              // "" good; else why it must never be read: bad-suffix | outside | dir
+	decoy    string              // "" good; else why it must never be read: bad-suffix | outside | dir | fifo-outside | fifo-bad-suffix | bad-suffix-entry
+	tag      string              // decoys: the marker in the file is DECOY-<tag>
+	broken   bool                // decoys: the content is NOT valid configuration syntax (every line carries the marker)
+	fifo     bool                // decoys: a FIFO, not a regular file
 	linkTo   string              // symlink target (relative text as created)
 	linkKind string              // symlink-outside | symlink-non-dae | symlink-dir-outside
 	own      map[string][]string // section -> item dumps
@@ -1191,6 +1356,7 @@ type c17Ref struct {
 	cycle      bool
 	duplicate  bool
 	badNamed   []string // decoys matched by a pattern (must not be read)
+	badAbs     map[string]bool
 	symlinked  []string // symlink decoys matched by a pattern
 	openPerm   bool
 	unmatched  int
@@ -1203,7 +1369,7 @@ func c17IsGlob(p string) bool { return strings.ContainsAny(p, "*?[") }
 // file in listed order (depth first), a glob expanding to its matches in
 // lexical order; cycles are errors; decoys are never read.
 func c17RefMerge(t *c17Tree) *c17Ref {
-	ref := &c17Ref{secs: map[string][]string{}, read: map[string]bool{}}
+	ref := &c17Ref{secs: map[string][]string{}, read: map[string]bool{}, badAbs: map[string]bool{}}
 	var paths []string
 	for p := range t.files {
 		paths = append(paths, p)
@@ -1250,6 +1416,7 @@ func c17RefMerge(t *c17Tree) *c17Ref {
 					ref.symlinked = append(ref.symlinked, g.rel)
 				case g.decoy != "":
 					ref.badNamed = append(ref.badNamed, g.rel+" ("+g.decoy+")")
+					ref.badAbs[g.abs] = true
 				default:
 					child := visit(g, stack)
 					for s, l := range child {
@@ -1279,10 +1446,37 @@ func c17GenTree(r interface {
 	t := &c17Tree{id: id, root: root, dir: filepath.Join(root, "etc"), files: map[string]*c17TFile{}}
 	t.entry = filepath.Join(t.dir, "config.dae")
 	outside := filepath.Join(root, "outside")
-	modes := []string{"tree", "tree", "tree", "tree-glob", "tree-glob", "cycle", "self", "diamond", "bad-include", "bad-include", "random", "perm"}
+	modes := []string{"tree", "tree", "tree", "tree-glob", "tree-glob", "cycle", "self", "diamond", "bad-include", "bad-include", "bad-include", "bad-entry", "random", "perm"}
 	t.mode = modes[r.IntN(len(modes))]
 	if id < 3 {
 		t.mode = "bad-include" // trees 0..2 always name one symlink decoy each (see below)
+	}
+	// content that is NOT configuration syntax: reading it surfaces as a syntax error, which quotes the source line
+	brokenText := func(tag string) string {
+		return fmt.Sprintf("DECOY-%s { { { 'DECOY-%s\n}} DECOY-%s ( (\n", tag, tag, tag)
+	}
+	if t.mode == "bad-entry" {
+		// the ENTRY file itself is not a .dae file: it is rejected without being read
+		name := []string{"config.txt", "config.dae.bak", "config", "config.dae.orig", "dae.conf", "config.dae~"}[r.IntN(6)]
+		t.entry = filepath.Join(t.dir, name)
+		e := &c17TFile{rel: name, abs: t.entry, mode: []os.FileMode{0o600, 0o640, 0o644}[r.IntN(3)], decoy: "bad-suffix-entry", tag: "entry"}
+		if r.IntN(2) == 0 {
+			e.broken, e.text = true, brokenText("entry")
+		} else {
+			e.text = "node {\n    'DECOY-entry'\n}\ninclude {\n    a.dae\n}\nglobal {}\nrouting {}\n"
+		}
+		a := &c17TFile{rel: "a.dae", abs: filepath.Join(t.dir, "a.dae"), mode: 0o600, text: "node {\n    'F1-1'\n}\n"}
+		t.files[e.abs], t.files[a.abs] = e, a
+		if err := os.MkdirAll(t.dir, 0o755); err != nil {
+			panic(fmt.Sprintf("c17 tree setup: %v", err))
+		}
+		for _, f := range []*c17TFile{e, a} {
+			if err := os.WriteFile(f.abs, []byte(f.text), f.mode); err != nil {
+				panic(fmt.Sprintf("c17 tree setup: %v", err))
+			}
+			_ = os.Chmod(f.abs, f.mode)
+		}
+		return t
 	}
 	secPool := []string{"node", "subscription", "routing", "group", "custom", "dns"}
 	// one tree in three merges into something config.New accepts (Merge -> New is the daemon's sequence)
@@ -1369,13 +1563,34 @@ func c17GenTree(r interface {
 		{"../outside/secret.txt", "outside", "outtxt"},
 		{"../secret-sibling.dae", "outside", "sibling"},
 	}
-	for _, d := range decs {
-		f := add(d.rel, 0o600, d.why)
-		f.text = decoyText(d.tag)
-	}
-	add("config.d/d.dae", 0o755, "dir") // a DIRECTORY named like a config file
 	// symlinks (only in some trees: a glob that meets one reads through it)
 	withLinks := r.IntN(4) == 0 || id < 3
+	for _, d := range decs {
+		f := add(d.rel, 0o600, d.why)
+		f.tag = d.tag
+		f.text = decoyText(d.tag)
+		if withLinks && (d.rel == "../outside/secret.dae" || d.rel == "config.d/notes.txt") {
+			continue // the symlinks' targets stay valid, private files (their content reaching the merged result is the known finding)
+		}
+		// a forbidden file is forbidden whatever it holds: half of them are not configuration syntax, some are world-readable
+		if r.IntN(2) == 0 {
+			f.broken, f.text = true, brokenText(d.tag)
+		}
+		if r.IntN(4) == 0 {
+			f.mode = 0o644
+		}
+	}
+	// FIFOs: opening one for reading blocks; none is a .dae file inside the entry directory, none is reachable through a symlink
+	for _, d := range []dec{
+		{"../pipe.dae", "fifo-outside", ""}, {"../outside2/fifo.dae", "fifo-outside", ""},
+		{"config.d/queue.txt", "fifo-bad-suffix", ""}, {"other/sock.dae.bak", "fifo-bad-suffix", ""},
+	} {
+		f := add(d.rel, 0o600, d.why)
+		f.fifo = true
+		f.text = c17FifoText(f.abs)
+		f.tag = strings.TrimPrefix(c17MarkRe.FindString(f.text), "DECOY-")
+	}
+	add("config.d/d.dae", 0o755, "dir") // a DIRECTORY named like a config file
 	if withLinks {
 		l := add("config.d/zz-link.dae", 0o600, "outside")
 		l.linkTo, l.linkKind = "../../outside/secret.dae", "symlink-outside"
@@ -1487,6 +1702,8 @@ func c17GenTree(r interface {
 				filepath.Join(t.dir, "..", "outside", "secret.dae"), "../outside/*.dae", "../*.dae", "../secret-sibling.dae",
 				"config.d/notes.txt", filepath.Join(t.dir, "config.d", "notes.txt"), "config.d/x.dae.bak", "y.daemon", "config.d/*.txt", "../outside/secret.txt",
 				"config.d/d.dae", "config.d/nonexistent.dae",
+				"../pipe.dae", filepath.Join(root, "pipe.dae"), "config.d/sub/../../../pipe.dae", "../outside2/fifo.dae", "../outside2/*.dae",
+				"config.d/queue.txt", "other/sock.dae.bak", filepath.Join(t.dir, "other", "sock.dae.bak"),
 			}
 			if withLinks {
 				bad = append(bad, "config.d/zz-link.dae", "linkdir/secret.dae", "other/notes-link.dae", "linkdir/*.dae")
@@ -1526,6 +1743,7 @@ func c17GenTree(r interface {
 	must(os.MkdirAll(filepath.Join(t.dir, "config.d", "sub"), 0o755))
 	must(os.MkdirAll(filepath.Join(t.dir, "other"), 0o755))
 	must(os.MkdirAll(outside, 0o755))
+	must(os.MkdirAll(filepath.Join(root, "outside2"), 0o755))
 	for _, f := range t.files {
 		if f.decoy == "dir" {
 			must(os.MkdirAll(f.abs, 0o755))
@@ -1543,6 +1761,9 @@ func c17GenTree(r interface {
 			continue
 		case f.linkTo != "":
 			must(os.Symlink(f.linkTo, f.abs))
+			continue
+		case f.fifo:
+			must(syscall.Mkfifo(f.abs, 0o600))
 			continue
 		}
 		text := f.text
@@ -1584,12 +1805,135 @@ func c17GenTree(r interface {
 	return t
 }
 
+// watchLists: what the child observes while Merge runs: every regular decoy (and the entry file as
+// the positive control of the observation) with inotify, every FIFO with the read-end probe.
+func (t *c17Tree) watchLists() (watch, fifos []string) {
+	for p, f := range t.files {
+		switch {
+		case f.fifo:
+			fifos = append(fifos, p)
+		case f.decoy != "" && f.decoy != "dir" && f.linkKind == "":
+			watch = append(watch, p)
+		}
+	}
+	if t.files[t.entry].decoy == "" {
+		watch = append(watch, t.entry)
+	}
+	sort.Strings(watch)
+	sort.Strings(fifos)
+	return
+}
+
+// judgeAccess: "never reading a file that is not a .dae file or that lies outside the entry
+// configuration directory", judged on what the process DID while Merge ran, whatever Merge returned:
+//   - bytes were read from a forbidden file (inotify IN_ACCESS; for a FIFO: the bytes the monitor fed it);
+//   - the text of the returned error carries a forbidden file's marker (its content was read and disclosed).
+//
+// An open without a read (IN_OPEN only, a FIFO's read end held but nothing consumed) is recorded, not judged.
+// Reads explained by the known symlink findings (the link's target, when a pattern matched the link) are counted apart.
+func (j *c17Judge) judgeAccess(t *c17Tree, ref *c17Ref, explained map[string]string, o c17Out, witness func() map[string]any) {
+	m := j.m
+	var decoys []string
+	byTag := map[string]*c17TFile{}
+	for p, f := range t.files {
+		if f.decoy != "" && f.decoy != "dir" && f.linkKind == "" {
+			decoys = append(decoys, p)
+			if prev := byTag[f.tag]; prev != nil || f.tag == "" {
+				m.Inconclusive("include-tree generator: decoy marker tag %q of %s is not unique", f.tag, f.rel)
+			}
+			byTag[f.tag] = f
+		}
+	}
+	sort.Strings(decoys)
+	// (a) content disclosure through the error text
+	for _, mk := range o.ErrMarks {
+		f := byTag[strings.TrimPrefix(mk, "DECOY-")]
+		if f == nil {
+			continue
+		}
+		if _, isKnown := explained[f.abs]; isKnown {
+			m.Count("forbidden_read_explained_by_known_symlink_finding", 1)
+			continue
+		}
+		j.report("include-error-discloses-forbidden-file:"+f.decoy, "the error returned by Merge quotes the content of a file that is not a .dae file inside the entry directory (it was read): "+f.rel, witness())
+	}
+	if o.Merge.St == "err" {
+		m.Count("merge_errors_searched_for_decoy_markers", 1)
+		for _, p := range decoys {
+			if f := t.files[p]; f.broken && ref != nil && ref.badAbs[p] && len(o.ErrMarks) == 0 {
+				m.Count("named_non_syntax_decoy_absent_from_error", 1)
+			}
+		}
+		if e := t.files[t.entry]; e.decoy != "" && e.broken && len(o.ErrMarks) == 0 {
+			m.Count("named_non_syntax_decoy_absent_from_error", 1)
+		}
+	}
+	// (b) file access
+	if o.WatchErr != "" {
+		m.Count("file_access_observation_failed", 1)
+		m.Set("file_access_observation_last_error", o.WatchErr)
+		return
+	}
+	m.Count("trees_file_access_observed", 1)
+	opened, accessed, readers := map[string]bool{}, map[string]bool{}, map[string]bool{}
+	for _, p := range o.Opened {
+		opened[p] = true
+	}
+	for _, p := range o.Accessed {
+		accessed[p] = true
+	}
+	for _, p := range o.FifoReaders {
+		readers[p] = true
+	}
+	if e := t.files[t.entry]; e.decoy == "" {
+		// positive control: a proper entry file is opened by every merge
+		switch {
+		case opened[t.entry] || accessed[t.entry]:
+			m.Count("file_access_positive_control_seen", 1)
+		case o.Merge.St == "ok":
+			m.Inconclusive("the merge of tree %d succeeded but no open/read of its entry file was observed: the file-access observation does not work", t.id)
+		default:
+			m.Count("file_access_positive_control_missing_on_rejected_tree", 1)
+		}
+	}
+	for _, p := range decoys {
+		f := t.files[p]
+		named := (ref != nil && ref.badAbs[p]) || p == t.entry
+		switch {
+		case accessed[p]:
+			if _, isKnown := explained[p]; isKnown {
+				m.Count("forbidden_read_explained_by_known_symlink_finding", 1)
+				continue
+			}
+			what := "bytes were read from a file that is not a .dae file inside the entry directory: " + f.rel
+			if f.fifo {
+				what = "a FIFO that is not a .dae file inside the entry directory was opened and read (without the monitor feeding it the merge would hang): " + f.rel
+			}
+			j.report("include-read-forbidden-file:"+f.decoy, what, witness())
+		case opened[p] || readers[p]:
+			if _, isKnown := explained[p]; isKnown {
+				m.Count("forbidden_read_explained_by_known_symlink_finding", 1)
+				continue
+			}
+			m.Count("forbidden_file_opened_but_not_read", 1)
+		default:
+			m.Count("forbidden_files_untouched", 1)
+			if named {
+				m.Count("named_forbidden_file_untouched", 1)
+				if f.fifo {
+					m.Count("named_forbidden_fifo_untouched", 1)
+				}
+				m.Distinct("untouched|" + f.decoy + "|" + fmt.Sprint(f.broken, f.mode&0o037 != 0) + "|" + o.Merge.St)
+			}
+		}
+	}
+}
+
 func (j *c17Judge) judgeTree(t *c17Tree, o c17Out) {
 	m := j.m
 	m.Eval(1)
 	m.Count("trees", 1)
 	m.Count("trees_mode_"+t.mode, 1)
-	ref := c17RefMerge(t)
 	witness := func() map[string]any {
 		files := map[string]any{}
 		for _, f := range t.files {
@@ -1599,6 +1943,8 @@ func (j *c17Judge) judgeTree(t *c17Tree, o c17Out) {
 				e["directory"] = true
 			case f.linkKind != "":
 				e["symlink"] = f.linkKind
+			case f.fifo:
+				e["fifo"] = true
 			default:
 				e["text"] = f.text
 			}
@@ -1607,8 +1953,9 @@ func (j *c17Judge) judgeTree(t *c17Tree, o c17Out) {
 			}
 			files[f.rel] = e
 		}
-		return map[string]any{"entry": "etc/config.dae", "mode": t.mode, "files_relative_to_entry_dir": files,
-			"merge": o.Merge, "merged_sections": o.Secs, "entries": o.Entries}
+		return map[string]any{"entry": "etc/" + filepath.Base(t.entry), "mode": t.mode, "files_relative_to_entry_dir": files,
+			"merge": o.Merge, "merged_sections": o.Secs, "entries": o.Entries,
+			"file_access_observed": map[string]any{"opened": o.Opened, "read_from": o.Accessed, "fifo_read_end_held": o.FifoReaders, "markers_in_error_text": o.ErrMarks}}
 	}
 	if sig := c17CrashSigOf(nil, o); sig != "" {
 		if o.Hang {
@@ -1618,6 +1965,38 @@ func (j *c17Judge) judgeTree(t *c17Tree, o c17Out) {
 		return
 	}
 	ok := o.Merge.St == "ok"
+	if t.mode == "bad-entry" {
+		// the entry file itself is not a .dae file
+		m.Distinct(fmt.Sprintf("tree|bad-entry|%s|ok=%v|broken=%v", filepath.Ext(t.entry), ok, t.files[t.entry].broken))
+		if ok {
+			j.report("non-dae-entry-accepted", "Merge read and returned an entry file that is not a .dae file: "+filepath.Base(t.entry), witness())
+		} else {
+			m.Count("bad_entry_rejected", 1)
+		}
+		j.judgeAccess(t, nil, nil, o, witness)
+		return
+	}
+	ref := c17RefMerge(t)
+	// what the known symlink findings explain: the target of a symlink that a pattern matched is read through the link
+	explained := map[string]string{}
+	if len(ref.symlinked) > 0 {
+		named := map[string]bool{}
+		for _, rel := range ref.symlinked {
+			named[rel] = true
+		}
+		for _, f := range t.files {
+			if f.linkKind == "" || !named[f.rel] {
+				continue
+			}
+			switch f.linkKind {
+			case "symlink-outside", "symlink-dir-outside":
+				explained[filepath.Join(t.root, "outside", "secret.dae")] = f.linkKind
+			case "symlink-non-dae":
+				explained[filepath.Join(t.dir, "config.d", "notes.txt")] = f.linkKind
+			}
+		}
+	}
+	j.judgeAccess(t, ref, explained, o, witness)
 	if ok {
 		m.Count("trees_merged_then_config_new_"+o.New.St, 1)
 		m.Count("trees_merged", 1)
@@ -2057,7 +2436,9 @@ func TestVerifC17(t *testing.T) {
 	for i := 0; i < ntrees; i++ {
 		tr := c17GenTree(rt, i, filepath.Join(dir, fmt.Sprintf("tree%05d", i)))
 		trees = append(trees, tr)
-		tins = append(tins, c17In{ID: i, Entry: tr.entry})
+		in := c17In{ID: i, Entry: tr.entry}
+		in.Watch, in.Fifos = tr.watchLists()
+		tins = append(tins, in)
 	}
 	tres := rn.run(tins)
 	for _, tr := range trees {
@@ -2082,7 +2463,9 @@ func TestVerifC17(t *testing.T) {
 	m.Require("fidelity_checked_equal", "outcome_parse_err", "outcome_parse_ok_new_err", "outcome_parse_ok_new_ok",
 		"routing_build_ok", "dns_build_ok", "reject_mutants_clean_error", "typed_fields_checked", "typed_defaults_checked",
 		"ladder_within_limit_built", "trees_merged", "trees_rejected", "cycle_rejected", "section_order_checked_equal",
-		"decoy_markers_absent", "bad_include_rejected", "texts_edit", "texts_mutate", "texts_bytes", "texts_stress")
+		"decoy_markers_absent", "bad_include_rejected", "texts_edit", "texts_mutate", "texts_bytes", "texts_stress",
+		"trees_file_access_observed", "file_access_positive_control_seen", "named_forbidden_file_untouched", "named_forbidden_fifo_untouched",
+		"named_non_syntax_decoy_absent_from_error", "bad_entry_rejected")
 	m.Done(t)
 }
 
@@ -2127,8 +2510,8 @@ func c17StraceTier(m *vk.Monitor, j *c17Judge, rn *c17Runner, trees []*c17Tree, 
 				continue
 			}
 			m.Count("strace_opens_seen", 1)
-			if strings.Contains(mm[2], "O_DIRECTORY") {
-				continue
+			if strings.Contains(mm[2], "O_DIRECTORY") || strings.Contains(mm[2], "O_WRONLY") {
+				continue // O_WRONLY: the monitor's own probe of a FIFO's read end; the merger never opens for writing
 			}
 			if d, ok := decoys[filepath.Clean(mm[1])]; ok {
 				j.report("include-opened-decoy:"+d.decoy, "the merger opened a file that is not a .dae file inside the entry directory: "+d.rel,
